@@ -256,6 +256,32 @@ def structure(project):
     }
 
 
+def structure_idx(project, fresh):
+    """index-level snapshot of the dependency structure for the model
+    correspondence (C17): tasks t<i> -> i; helper tasks (any other ID) ->
+    fresh, fresh+1, ... in task_list order"""
+    wf, org = project.workflow, project.organization
+    num = {}
+    k = fresh
+    for t in wf.task_list:
+        if isinstance(t.ID, str) and t.ID.startswith("t") and t.ID[1:].isdigit():
+            num[id(t)] = int(t.ID[1:])
+        else:
+            num[id(t)] = k
+            k += 1
+    n = k
+    by = {num[id(t)]: t for t in wf.task_list}
+    wps = {int(w.ID[2:]): w for w in org.workplace_list}
+    return {
+        "n": n,
+        "task_list": [num[id(t)] for t in wf.task_list],
+        "in": [[(num.get(id(e[0]), 9999), int(e[1])) for e in by[i].input_task_list] if i in by else [] for i in range(n)],
+        "out": [[(num.get(id(e[0]), 9999), int(e[1])) for e in by[i].output_task_list] if i in by else [] for i in range(n)],
+        "wp_in": [[int(x.ID[2:]) for x in wps[j].input_workplace_list] if j in wps else [] for j in range(len(wps))],
+        "wp_out": [[int(x.ID[2:]) for x in wps[j].output_workplace_list] if j in wps else [] for j in range(len(wps))],
+    }
+
+
 class Crash(Exception):
     pass
 
@@ -292,6 +318,8 @@ def run_ops(case, want_snaps=True, ops=None, built=None):
                 del EVENTS[:]
             if want_snaps:
                 rec["snaps"].append((project.time, phase, working, snap(project)))
+            if op["op"] == "backward" and "struct_inner_idx" not in rec:
+                rec["struct_inner_idx"] = structure_idx(project, len(case["tasks"]))
             cr = op.get("crash")
             if cr is not None and project.time == cr[0] and phase == cr[1]:
                 raise Crash("injected at step %d phase %s" % (cr[0], cr[1]))
@@ -307,12 +335,14 @@ def run_ops(case, want_snaps=True, ops=None, built=None):
                     p.simulate(max_time=int(op.get("max_time", 200)))
                 elif name == "backward":
                     rec["struct_before"] = structure(p)
+                    rec["struct_before_idx"] = structure_idx(p, len(case["tasks"]))
                     rec["keep"] = (list(p.workflow.task_list),)  # keep ids alive
                     try:
                         p.backward_simulate(considering_due_time_of_tail_tasks=bool(op.get("due", False)),
                                             reverse_log_information=bool(op.get("revlog", True)), **sim_kwargs(op))
                     finally:
                         rec["struct_after"] = structure(p)
+                        rec["struct_after_idx"] = structure_idx(p, len(case["tasks"]))
                 elif name == "initialize":
                     p.initialize(state_info=bool(op.get("state", True)), log_info=bool(op.get("log", True)))
                 elif name == "reverse_log":
